@@ -37,6 +37,12 @@ type Prog struct {
 	LoadTime time.Duration
 	SSATime  time.Duration
 
+	// helper normalisation (normalize.go)
+	NormSites   []string          // call sites inlined before analysis
+	NormSkipped []string          // helpers left as calls, with the reason
+	NormNotes   []string          // fallbacks
+	NormOverlay map[string][]byte // the analysed (transformed) sources
+
 	cgOnce sync.Once
 	cg     *callgraph.Graph
 	chaCG  *callgraph.Graph
@@ -44,6 +50,9 @@ type Prog struct {
 
 	icgOnce sync.Once
 	icg     *eng.CG
+
+	scopeOnce sync.Once
+	scope     []*ssa.Function
 
 	declOnce sync.Once
 	decls    map[*types.Func]*ast.FuncDecl
@@ -67,9 +76,10 @@ func InScope(path string) bool {
 	return !outOfScope[path]
 }
 
-// Load loads the repository at dir. overlay may be nil.
-func Load(dir string, overlay map[string][]byte) (*Prog, error) {
-	t0 := time.Now()
+// NoNormalize disables the helper normalisation (debugging).
+var NoNormalize = os.Getenv("VERIF_NO_NORMALIZE") != ""
+
+func loadPkgs(dir string, overlay map[string][]byte) ([]*packages.Package, int, string, error) {
 	env := []string{}
 	for _, e := range os.Environ() {
 		// GOSUMDB=off and GOTOOLCHAIN=local break the toolchain switch of /repo (go 1.24).
@@ -88,14 +98,13 @@ func Load(dir string, overlay map[string][]byte) (*Prog, error) {
 	}
 	pkgs, err := packages.Load(cfg, "./...")
 	if err != nil {
-		return nil, fmt.Errorf("packages.Load: %w", err)
+		return nil, 0, "", fmt.Errorf("packages.Load: %w", err)
 	}
 	if len(pkgs) == 0 {
-		return nil, fmt.Errorf("no packages loaded from %s", dir)
+		return nil, 0, "", fmt.Errorf("no packages loaded from %s", dir)
 	}
-	p := &Prog{Repo: dir, ByPath: map[string]*packages.Package{}}
 	nerr := 0
-	var firstErr string
+	firstErr := ""
 	for _, pk := range pkgs {
 		for _, e := range pk.Errors {
 			nerr++
@@ -103,6 +112,19 @@ func Load(dir string, overlay map[string][]byte) (*Prog, error) {
 				firstErr = e.Error()
 			}
 		}
+	}
+	return pkgs, nerr, firstErr, nil
+}
+
+// Load loads the repository at dir. overlay may be nil.
+func Load(dir string, overlay map[string][]byte) (*Prog, error) {
+	t0 := time.Now()
+	pkgs, nerr, firstErr, err := loadPkgs(dir, overlay)
+	if err != nil {
+		return nil, err
+	}
+	p := &Prog{Repo: dir, ByPath: map[string]*packages.Package{}}
+	for _, pk := range pkgs {
 		if len(pk.IgnoredFiles) > 0 {
 			for _, f := range pk.IgnoredFiles {
 				if strings.HasSuffix(f, ".go") {
@@ -110,11 +132,71 @@ func Load(dir string, overlay map[string][]byte) (*Prog, error) {
 				}
 			}
 		}
-		p.ByPath[pk.PkgPath] = pk
-		p.Fset = pk.Fset
 	}
 	if nerr > 0 {
 		return nil, fmt.Errorf("%d load/type errors, first: %s", nerr, firstErr)
+	}
+	// helper normalisation (see normalize.go): up to three rounds for nested helpers
+	if !NoNormalize {
+		cur := overlay
+		nz := &normalizer{overlay: map[string][]byte{}}
+		for k, v := range overlay {
+			nz.overlay[k] = v
+		}
+		for round := 1; round <= 3; round++ {
+			nz.round = round
+			nz.fset = pkgs[0].Fset
+			before := len(nz.sites)
+			changed := nz.normalizeRound(pkgs)
+			if len(changed) == 0 {
+				break
+			}
+			next := map[string][]byte{}
+			for k, v := range cur {
+				next[k] = v
+			}
+			for _, files := range changed {
+				for fn, b := range files {
+					next[fn] = b
+				}
+			}
+			pk2, n2, first2, err2 := loadPkgs(dir, next)
+			if err2 == nil && n2 > 0 {
+				// analyse the packages whose transformed files do not type-check untransformed
+				for _, pk := range pk2 {
+					if len(pk.Errors) == 0 {
+						continue
+					}
+					for fn := range changed[pk.PkgPath] {
+						if orig, ok := cur[fn]; ok {
+							next[fn] = orig
+						} else {
+							delete(next, fn)
+						}
+					}
+				}
+				p.NormNotes = append(p.NormNotes, fmt.Sprintf("round %d: transformed files did not type-check (%s); those packages are analysed as written", round, first2))
+				nz.sites = nz.sites[:before]
+				pk2, n2, first2, err2 = loadPkgs(dir, next)
+			}
+			if err2 != nil || n2 > 0 {
+				p.NormNotes = append(p.NormNotes, fmt.Sprintf("round %d abandoned: %v %s", round, err2, first2))
+				nz.sites = nz.sites[:before]
+				break
+			}
+			pkgs, cur = pk2, next
+			nz.overlay = next
+		}
+		p.NormSites = nz.sites
+		for s := range nz.skipped {
+			p.NormSkipped = append(p.NormSkipped, s)
+		}
+		sort.Strings(p.NormSkipped)
+		p.NormOverlay = cur
+	}
+	for _, pk := range pkgs {
+		p.ByPath[pk.PkgPath] = pk
+		p.Fset = pk.Fset
 	}
 	sort.Slice(pkgs, func(i, j int) bool { return pkgs[i].PkgPath < pkgs[j].PkgPath })
 	p.Pkgs = pkgs
@@ -124,6 +206,18 @@ func Load(dir string, overlay map[string][]byte) (*Prog, error) {
 	prog.Build()
 	p.SSA = prog
 	p.SSATime = time.Since(t1)
+	// index stores to package-level variables (production functions + package initialisers)
+	idx := p.ScopeFuncs()
+	for _, pk := range pkgs {
+		if InScope(pk.PkgPath) {
+			if sp := prog.Package(pk.Types); sp != nil {
+				if ini := sp.Func("init"); ini != nil {
+					idx = append(idx, ini)
+				}
+			}
+		}
+	}
+	eng.IndexGlobals(idx)
 	return p, nil
 }
 
@@ -213,12 +307,25 @@ func (p *Prog) Pos(pos token.Pos) string {
 
 // ScopeFuncs returns all source functions (incl. anonymous) of production packages.
 func (p *Prog) ScopeFuncs() []*ssa.Function {
+	p.scopeOnce.Do(func() { p.scope = p.scopeFuncs() })
+	return p.scope
+}
+
+func (p *Prog) scopeFuncs() []*ssa.Function {
 	var out []*ssa.Function
+	dead := p.inlinedAway()
 	for fn := range ssautil.AllFunctions(p.SSA) {
 		if fn.Pkg == nil || fn.Synthetic != "" || fn.Blocks == nil {
 			continue
 		}
 		if !InScope(fn.Pkg.Pkg.Path()) {
+			continue
+		}
+		root := fn
+		for root.Parent() != nil {
+			root = root.Parent()
+		}
+		if dead[root] {
 			continue
 		}
 		out = append(out, fn)
@@ -230,6 +337,74 @@ func (p *Prog) ScopeFuncs() []*ssa.Function {
 		return out[i].String() < out[j].String()
 	})
 	return out
+}
+
+// inlinedAway returns the helpers that the normalisation inlined at every place they are used:
+// unexported declared functions outside the rule vocabulary to which no reference is left in
+// production code. They are unreachable in the analysed program and are not analysed on their
+// own (their body is analysed where it was inlined).
+func (p *Prog) inlinedAway() map[*ssa.Function]bool {
+	dead := map[*ssa.Function]bool{}
+	if len(p.NormSites) == 0 {
+		return dead
+	}
+	cand := map[*ssa.Function]bool{}
+	var all []*ssa.Function
+	for fn := range ssautil.AllFunctions(p.SSA) {
+		if fn.Pkg == nil || fn.Blocks == nil || !InScope(fn.Pkg.Pkg.Path()) {
+			continue
+		}
+		all = append(all, fn)
+		obj, _ := fn.Object().(*types.Func)
+		if obj == nil || fn.Parent() != nil || fn.Synthetic != "" || obj.Exported() {
+			continue
+		}
+		if Vocabulary != nil && Vocabulary(helperID(obj)) {
+			continue
+		}
+		if obj.Name() == "init" || obj.Name() == "main" {
+			continue
+		}
+		cand[fn] = true
+	}
+	// any remaining reference (call, go, defer, function value, method value) keeps it alive
+	for _, fn := range all {
+		for _, b := range fn.Blocks {
+			for _, in := range b.Instrs {
+				for _, op := range in.Operands(nil) {
+					if f, ok := (*op).(*ssa.Function); ok && cand[f] && f != fn {
+						delete(cand, f)
+					}
+					if mc, ok := (*op).(*ssa.MakeClosure); ok {
+						if f, ok := mc.Fn.(*ssa.Function); ok && f.Synthetic != "" {
+							// bound method wrapper: look at the wrapped method
+							for _, b2 := range f.Blocks {
+								for _, in2 := range b2.Instrs {
+									if c, ok := in2.(ssa.CallInstruction); ok {
+										if t := c.Common().StaticCallee(); t != nil {
+											delete(cand, t)
+										}
+									}
+								}
+							}
+						}
+					}
+				}
+				if c, ok := in.(ssa.CallInstruction); ok && c.Common().IsInvoke() {
+					// interface calls may reach unexported methods of the same package
+					for f := range cand {
+						if f.Signature.Recv() != nil && f.Name() == c.Common().Method.Name() {
+							delete(cand, f)
+						}
+					}
+				}
+			}
+		}
+	}
+	for f := range cand {
+		dead[f] = true
+	}
+	return dead
 }
 
 // CallGraph returns the VTA call graph (built lazily).
